@@ -902,6 +902,7 @@ func spaces(tier string) []kit.Space {
 		sps = append(sps, linesSpace(ext, lineToks), switchSpace(ext, swLen), rawSpace(ext))
 	}
 	sps = append(sps, mdurlSpace(urlLen), mdnestSpace(tier), bigSpace(tier))
+	sps = append(sps, escapesSpace())
 	// developer aid: VERIF_C15_SPACES=lines,raw runs only the spaces whose name
 	// starts with one of the prefixes (never set by bin/check)
 	if f := os.Getenv("VERIF_C15_SPACES"); f != "" {
@@ -932,7 +933,8 @@ func main() {
 			"sequences that are ill-nested, have the shebang atom after position 0, or whose adjacent atoms join into a delimiter ({{ {% {# #}) are classified and not built; a case is non-trivial when it builds, runs and contains at least one syntax atom. Indices enumerate distinct atom sequences (mixed radix). " +
 			"loop.*: every sequence of length <= 5 (quick) / <= 6 (thorough) over 13 atoms (a, space, LF, comment, if, end, marked raw block, value show, render, and three loops that run their body exactly twice: a three-clause for, a for range over a two-element slice, and a condition-less {% for %} — with its own closing atom that holds the break guard, so that body text directly follows {% for %}; loops nest freely) in each of the 6 formats; sequences without a loop atom are classified and not built; " +
 			"a loop case is non-trivial when it builds, runs and some literal byte or printing token is inside a loop body. " +
-			"url.html: every HTML document with one URL attribute, or two joined in 4 ways (adjacent tags, text between, a show between, same tag), each attribute quoted (<a href=\"…\">) or unquoted (<img src=…>) with every content of length <= 2 (quick) / <= 3 (thorough) over 6 pieces (text /x/, ?p=, &; shows of \"v\", \"a?b\", \"a?b&\"); non-trivial when the document and its attributes alone build and run",
+			"url.html: every HTML document with one URL attribute, or two joined in 4 ways (adjacent tags, text between, a show between, same tag), each attribute quoted (<a href=\"…\">) or unquoted (<img src=…>) with every content of length <= 2 (quick) / <= 3 (thorough) over 6 pieces (text /x/, ?p=, &; shows of \"v\", \"a?b\", \"a?b&\"); non-trivial when the document and its attributes alone build and run; " +
+			"escapes-before-syntax: every combination of 17 contexts (JS string ' \" ` in <script>, ' \" in a .js file, CSS string ' \" in <style> and in a .css file, JS string in an event-handler attribute, quoted attribute ' \", HTML text in .html and .md, JSON string in .json and in an ld+json script, Markdown text) x 18 prefixes directly before the construct (neutral a as control; \\, \\\\, \\', \\\", \\n, backslash-newline, ', \", /, */, //, <!--, ]]>, <, </, &, %) x 3 constructs ({{ 5 }}, {% if true %}M{% end %}, {# c #}) x 2 suffixes (b, nothing), minus the single backslash in a Markdown file; exact oracle: the source with the construct replaced by 5 / M / nothing; non-trivial when the prefix is not the control",
 		Assumptions: []string{
 			"whitespace = space, tab, CR, LF; a line ends at LF (also inside raw content); CR occurs only as CRLF",
 			"a value show may print v or \"v\" and the render P or \"P\" (the context decides the quoting, which C06-C08 check)",
@@ -941,6 +943,7 @@ func main() {
 			"the shebang line's text must not be emitted; its newline may or may not be",
 			"raw block contents start and end with a non-space byte, so the raw markers share their line with content",
 			"url.html: what a URL attribute's content renders to is taken from the document that has that attribute alone (differential); the absolute clause is only (a): literal bytes appear in order and unchanged, where — observed, not documented in the repository — inside a URL the text right after a value containing ? loses a leading ? and may get &amp; inserted before it, so that one ? is optional and insertions are not judged",
+			"escapes-before-syntax: {{ 5 }} prints 5 in every context (digits are never escaped); a template that does not build is a failure only when the same template with the neutral prefix a builds and renders as expected (text in front of a construct cannot make it invalid); in a Markdown file a single backslash directly before {{, {% or {# makes the lexer skip the brace (observed, not documented in the repository): those 12 cases are not in the space",
 			"the elements of a loop body occur exactly twice, in order, each occurrence under the same per-line rules (the rules are labels of source bytes); optional whitespace may be kept in one iteration and dropped in the other; a line holding only one loop statement follows (e); the condition-less loop's guard statements (in its closing atom) make every line they are on a line with several statements, constrained by (a)-(d) only",
 		},
 		Spaces: spaces,
